@@ -32,7 +32,7 @@ CONFIG = {
     'quick': {'shards': 16, 'cases': 6, 'timeout': 900, 'floor': 40, 'case_timeout': 400},
     'thorough': {'shards': 32, 'cases': 80, 'timeout': 5400, 'floor': 1000},
 }
-REQUIRED = ['fast_gradient_called_before_predict', 'bolfi_surrogate_order_permuted', 'bolfi_sampling_phases', 'bolfi_second_phase_after_update', 'bolfi_logpdf_points', 'bolfi_fast_predict_checked',
+REQUIRED = ['mixed_batches_checked', 'fast_gradient_called_before_predict', 'bolfi_surrogate_order_permuted', 'bolfi_sampling_phases', 'bolfi_second_phase_after_update', 'bolfi_logpdf_points', 'bolfi_fast_predict_checked',
             'bolfi_fast_gradient_checked', 'contract_logpdf', 'contract_predict', 'gps_fitted', 'logpdf_definition_checked', 'logpdf_outside_checked', 'logpdf_on_bound_checked', 'gradient_checked',
             'fastpath_predict_checked', 'fastpath_gradient_checked', 'evidence_order_checked', 'fast_after_update_without_slow_call',
             'shape_scalar_or_1d', 'shape_2d', 'far_tail_gradient_checked', 'default_threshold']
@@ -414,6 +414,33 @@ def run_case(ctx, case):
                         raise Violation('gradient-not-finite', 'gradient_logpdf is %r where logpdf is finite (%r)' % (gq, f(x)), {'x': x})
                     if np.all(np.isfinite(num)) and not np.allclose(gq, num, rtol=1e-3, atol=1e-4 * (1 + np.abs(num).max())):
                         raise Violation('gradient', 'gradient_logpdf %r, Richardson difference of logpdf %r' % (gq, num), {'x': x})
+        # a 2-D query of several rows, some inside and some outside the bounds: row i must be the value of point i alone
+        gp.is_sampling = False
+        rows = []
+        for qi in range(6):
+            x = rs.uniform(lo, hi)
+            if qi % 3 == 1:
+                j = rs.randint(d)
+                x[j] = hi[j] + rs.uniform(1e-6, 1)
+            if qi % 3 == 2:
+                j = rs.randint(d)
+                x[j] = lo[j]
+            rows.append(x)
+        Xq = np.array(rows)
+        got = np.asarray(post.logpdf(Xq))
+        grd = np.asarray(post.gradient_logpdf(Xq))
+        ctx.event('mixed_batches_checked')
+        if got.shape != (6,) or grd.shape != (6, d):
+            raise Violation('logpdf-shape', 'a (6, %d) query returned logpdf of shape %s and gradient of shape %s' % (d, got.shape, grd.shape))
+        for i, x in enumerate(rows):
+            one = float(np.ravel(post.logpdf(x.reshape(1, d)))[0])
+            g1 = np.ravel(post.gradient_logpdf(x.reshape(1, d)))
+            same = (np.isneginf(one) and np.isneginf(got[i])) or np.isclose(got[i], one, rtol=1e-7, atol=1e-7)
+            # batched and single-point library calls differ in the last digits; log Phi amplifies that far from the threshold
+            gsame = np.allclose(grd[i], g1, rtol=1e-5, atol=1e-7 * (1 + np.abs(g1[np.isfinite(g1)]).max(initial=0.0)), equal_nan=True)
+            if not (same and gsame):
+                raise Violation('logpdf-batch-row', 'row %d of a mixed inside/outside query: logpdf %r (alone: %r), gradient %r (alone: %r)' % (
+                    i, float(got[i]), one, grd[i].tolist(), g1.tolist()), {'query': Xq, 'bounds': bounds})
         # far tail: threshold far below the predicted mean (Phi underflows, logcdf does not)
         x = rs.uniform(lo + 0.2 * (hi - lo), hi - 0.2 * (hi - lo))
         mu, var = gp.predict(x)
